@@ -43,6 +43,10 @@ impl BindScope for BindNode {
         let lhs_change = lhs_change_.upgrade().unwrap();
         lhs_change.height()
     }
+    fn outer_scope(&self) -> Scope {
+        let main_ = self.main.borrow();
+        main_.upgrade().map_or(Scope::Top, |main| main.created_in())
+    }
     fn add_node(&self, node: WeakNode) {
         tracing::info!(
             "added node to BindScope({:?}): {:?}",
